@@ -301,6 +301,47 @@ func (p c03) Run(c *fw.Ctx, idx int) fw.Result {
 
 	p.defaultSequence(&res, ss, text, opName, vars, want, seed, detail)
 
+	// ---- history independence of a re-used normaliser instance (routers pool them): the operation with
+	// its variables, with every Boolean variable flipped (other @skip/@include outcome, other variables
+	// becoming unused), and with the original values again, on ONE instance, must each come out exactly as
+	// on a fresh instance
+	{
+		flipped := map[string]any{}
+		nflip := 0
+		for k, v := range vmap {
+			if b, ok := v.(bool); ok {
+				flipped[k] = !b
+				nflip++
+			} else {
+				flipped[k] = v
+			}
+		}
+		fv, _ := json.Marshal(flipped)
+		history := [][]byte{vars, fv, vars}
+		shared := rig.NewPipeline()
+		for i, hv := range history {
+			fresh := rig.NewPipeline().Run(ss.Repo, text, opName, hv)
+			reused := shared.Run(ss.Repo, text, opName, hv)
+			res.Count("reused_pipeline_documents_compared", 1)
+			if nflip > 0 {
+				res.Count("reused_pipeline_flipped_boolean_histories", 1)
+			}
+			what := ""
+			switch {
+			case fresh.Verdict() != reused.Verdict():
+				what = "verdict"
+			case fresh.Printed != reused.Printed:
+				what = "print"
+			case fresh.Variables != reused.Variables:
+				what = "variables"
+			}
+			if what != "" {
+				res.Violate("normalize.history-dependent", "a re-used normaliser instance yields a different result than a fresh one ("+what+")", map[string]string{"sequence": "reused-pipeline", "what": what}, detail(map[string]any{"variables_of_this_run": string(hv), "position_in_history": i, "fresh": fresh, "reused": reused}))
+				break
+			}
+		}
+	}
+
 	// ---- equivalence variants → same canonical print (engine sequence incl. VariablesMapper)
 	if len(doc.Ops) == 1 {
 		for _, vk := range []string{"wrap", "named2inline", "dup", "rename", "lit2var"} {
